@@ -208,7 +208,8 @@ PROPS = {
             "strings (rule R14): Encoder::emit_str / Decoder::read_str, Encode for str/String, Decode for String/Box<str>/Rc<str>/Arc<str> are under contract with image = LEB128 byte count + utf8(view). Trusted string model: utf8 is an uninterpreted injective function of the character sequence; str::as_bytes/str::len return utf8(view) and its length; String::from_utf8 accepts exactly the utf8 images; a VALUE of a string type holds at most isize::MAX bytes; into_boxed_str / Rc<str>::from / Arc<str>::from keep the characters",
             "VecDeque: Encode and Decode under contract (vstd model of VecDeque); rule R16: `for item in self` (self: &VecDeque) is read as `for item in self.iter()` -- std's `IntoIterator for &VecDeque` is `iter()`; vstd models only the latter",
             "HashMap / HashSet: Encode and Decode under RELATIONAL contracts (impl headers rewritten to MapEncode/MapDecode/SetEncode/SetDecode -- rewrite HDR -- because the image follows the iteration order and is not a function of the value): encode appends the count and the entry images in some duplicate-free enumeration of the keys; decode on the image of any entry sequence s consumes exactly it and returns the collection built by inserting entries image-equal to s in order; lemma_hashmap_roundtrip / lemma_hashset_roundtrip conclude view equality when element images are injective. Trusted: with_capacity_and_hasher returns an empty collection; obeys_key_model::<K>() and builds_valid_hashers::<S>() are preconditions (Hash/Eq of the key type and the hasher are lawful)",
-            "not under contract: Path/PathBuf/OsStr, LinkedList/BTreeMap/BTreeSet/DashMap/DashSet (no iterator models), Cow, RefCell, atomics, [T;N]::decode (MaybeUninit), SmallVec, BitVec",
+            "Cow: Encode and Decode under their own contract traits (CowEncode: appends the image of what the Cow dereferences to; CowDecode: returns Cow::Owned of a value decoded by T::Owned) -- the two impls have different bounds (T: Encode vs T::Owned: Decode) and meet only where borrowed and owned form have the same image (lemma_cow_pairs: str/String, [T]/Vec<T>). RefCell: Encode/Decode under the ordinary contracts (std model: borrow() hands out a guard that dereferences to the held value; a RefCell that is mutably borrowed panics, no bytes are produced)",
+            "not under contract: Path/PathBuf/OsStr, LinkedList/BTreeMap/BTreeSet/DashMap/DashSet (no iterator models), atomics (vstd specifies std atomics with nondeterministic loads -- an atomic's image is not a function of a value), [T;N]::decode (MaybeUninit), SmallVec, BitVec",
             "derive macros: verified on the fixture types of fixtures/derive_fix (named/tuple/unit/generic structs, enums with unit/tuple/struct variants, generic enum, skip on first/middle/last positions), expanded on every run by the real proc-macro crate; other shapes are covered only in so far as the macro treats them uniformly",
             "rule R13: alpha-renaming of the derive's method type parameter (__E/__D -> E/D)",
         ],
